@@ -1,6 +1,7 @@
 //! feos verification harness: property-based testing / fuzzing machinery for C01..C20.
 #![allow(clippy::type_complexity, clippy::too_many_arguments)]
 pub mod engine;
+pub mod fuzz;
 pub mod model;
 pub mod oracle;
 pub mod props;
